@@ -824,7 +824,7 @@ class CompiledRouterNode:
                 )
 
                 pattern_text = _FIELD_PATTERN.sub(r'(?P<\2>.+)', escaped_segment)
-                pattern_text = '^' + pattern_text + '$'
+                pattern_text = '^' + pattern_text + r'\Z'
 
                 self.is_complex = True
                 self.var_pattern = re.compile(pattern_text)
